@@ -355,7 +355,7 @@ def decide(prop: str, vres: dict, kani: dict, tier: str, seed: int, t0: float, m
         # proof functions of the specification library (spec/*.rs): lemmas Verus proved on this run (a failing one makes every
         # property undecided); the spec-level round-trip lemmas serve C04/C05
         'spec_lemmas_proved': len([k for k, v in vfn.items() if k.count('::') == 1 and all(x.get('success') for x in v) and any(x.get('mode') == 'proof' for x in v)]),
-        'roundtrip_lemmas_proved': sorted(k.split('::')[-1] for k, v in vfn.items() if k.endswith('_roundtrip') and all(x.get('success') for x in v)) if prop in ('C04', 'C05', 'C14') else None,
+        'roundtrip_lemmas_proved': sorted(k.split('::')[-1] for k, v in vfn.items() if (k.endswith('_roundtrip') or k.split('::')[-1] in ('lemma_muxed_file', 'lemma_moov_muxed_of_final', 'lemma_layout_start', 'lemma_layout_step')) and all(x.get('success') for x in v)) if prop in ('C01', 'C02', 'C04', 'C05', 'C14') else None,
         'degraded_functions': sorted(d_['fn'] for d_ in rep.get('degraded', [])),
         'extraction_rules_applied': len(rep.get('rules', [])),
         'items_dropped': len(rep.get('dropped', [])),
